@@ -16,7 +16,7 @@ from ..compile import World
 from ..ctx import CTX, RunTooBig
 from ..history import History, canon, canon_outcome, digest
 from ..rng import Streams, chance, pick, weighted
-from ..sim import apply_op, build_sim, locations, readable, stack_state, watch_calls
+from ..sim import apply_op, form_of, build_sim, locations, readable, stack_state, watch_calls
 from ..world import gen_inputs, gen_request, gen_situation, gen_value, gen_world, wide_knob
 from . import Result
 
@@ -280,7 +280,7 @@ def run_config(scn, world: World, cfg: dict, res: Result, H: History, reference=
             plan = None
             if op.get("fault"):
                 plan = {op["fault"]["site"]: {"kind": "raise_any"}}
-            out = apply_op(sim, world, op["do"], plan)
+            out = apply_op(sim, world, op["do"], plan, form=None if reference is None else form_of(op["do"], step))
             kept.append(out[1] if out[0] == "ok" else None)
             if op["do"][0] == "set_input" and out[0] == "ok":
                 held.add((op["do"][1], _pstr(op["do"][2])))
